@@ -11,6 +11,8 @@
 //  mode fc : both at once: the FailableMemoryAllocator stays installed as the current MALLOC allocator for the whole case
 //            and the C-level API (cpputest_malloc / strdup / strndup / calloc at "<unknown>":0, the countdown, set / unset
 //            out-of-memory) runs on top of it; every successful block is released at once.
+//  op `ts on|off` (modes fa, fc): MemoryLeakWarningPlugin::turnOnThreadSafeNewDeleteOverloads() / turnOnDefaultNotThreadSafe...():
+//            the allocations that follow go through the threadsafe_mem_leak_* functions (same families, same observations).
 //  mode c  : the C-level countdown through cpputest_malloc / strdup / strndup / calloc, plus realloc / free
 //            (outside the countdown) and malloc_count after every call.
 //
@@ -18,6 +20,7 @@
 // (locations are compared by content).  The canonical op line carries the file CONTENT.
 #include "fixture.h"
 #include "CppUTest/TestMemoryAllocator.h"
+#include "CppUTest/MemoryLeakWarningPlugin.h"
 #include "CppUTest/MemoryLeakDetectorNewMacros.h"
 #include "CppUTest/TestHarness_c.h"
 #include "CppUTest/MemoryLeakDetectorMallocMacros.h"
@@ -122,6 +125,11 @@ void run_case(const vh::Case& c) {
             vh::emit("> mode %s", mode.c_str());
             if (mode == "fc") { persist = true; setCurrentMallocAllocator(fa); }
         }
+        else if (isfa && w[0] == "ts" && w.size() == 2 && (w[1] == "on" || w[1] == "off")) {
+            vh::emit("> ts %s", w[1].c_str());
+            if (w[1] == "on") MemoryLeakWarningPlugin::turnOnThreadSafeNewDeleteOverloads();
+            else MemoryLeakWarningPlugin::turnOnDefaultNotThreadSafeNewDeleteOverloads();
+        }
         // ------------------------------------------------------------------ failable allocator
         else if (isfa && w[0] == "failnum" && w.size() == 2) {
             int n = (int) vh::to_i64(w[1]);
@@ -181,14 +189,15 @@ void run_case(const vh::Case& c) {
                         void* p = viamacro::m_alloc(size);
                         if (p) { memset(p, 'x', size); viamacro::m_free(p); } else res = "null";
                     }
-                    else if (fam == 'n') { char* p = (char*) operator new(size, FILES[fi], line); memset(p, 'x', size); operator delete(p); }
-                    else if (fam == 'a') { char* p = (char*) operator new[](size, FILES[fi], line); memset(p, 'x', size); operator delete[](p); }
-                    // g_sink keeps the compiler from eliding the new/delete pairs
-                    else if (fam == 'p') { g_sink = new char; *g_sink = 'x'; delete g_sink; }
-                    else if (fam == 'q') { g_sink = new char[size]; memset(g_sink, 'x', size); delete[] g_sink; }
+                    else if (fam == 'n') { g_sink = (char*) operator new(size, FILES[fi], line); if (g_sink) { memset(g_sink, 'x', size); operator delete(g_sink); } else res = "null"; }
+                    else if (fam == 'a') { g_sink = (char*) operator new[](size, FILES[fi], line); if (g_sink) { memset(g_sink, 'x', size); operator delete[](g_sink); } else res = "null"; }
+                    // g_sink (volatile) keeps the compiler from eliding the new/delete pairs and from assuming that a throwing
+                    // form never hands back NULL: such a result is observed as `ret null`
+                    else if (fam == 'p') { g_sink = new char; if (g_sink) { *g_sink = 'x'; delete g_sink; } else res = "null"; }
+                    else if (fam == 'q') { g_sink = new char[size]; if (g_sink) { memset(g_sink, 'x', size); delete[] g_sink; } else res = "null"; }
                     else if (fam == 't') { g_sink = new (std::nothrow) char; if (g_sink) { *g_sink = 'x'; delete g_sink; } else res = "null"; }
                     else if (fam == 'u') { g_sink = new (std::nothrow) char[size]; if (g_sink) { memset(g_sink, 'x', size); delete[] g_sink; } else res = "null"; }
-                    else if (fam == 'W') { g_sink = viamacro::n_alloc(size); memset(g_sink, 'x', size); delete[] g_sink; }
+                    else if (fam == 'W') { g_sink = viamacro::n_alloc(size); if (g_sink) { memset(g_sink, 'x', size); delete[] g_sink; } else res = "null"; }
                 } catch (std::bad_alloc&) { res = "throw"; }
                 if (!persist) setCurrentMallocAllocator(savedM);
                 setCurrentNewAllocator(savedN); setCurrentNewArrayAllocator(savedA);
@@ -334,6 +343,7 @@ void run_case(const vh::Case& c) {
         else vh::emit("> skip");
     }
     // end-of-case cleanup, not part of the history
+    MemoryLeakWarningPlugin::turnOnDefaultNotThreadSafeNewDeleteOverloads();
     if (mode == "c" || mode == "fc") {
         cpputest_malloc_set_not_out_of_memory();
         for (size_t k = 0; k < cblocks.size(); k++) cpputest_free(cblocks[k]);
